@@ -26,6 +26,9 @@ var c01Injections = []string{
 	"div{margin:1px 2px 3px 4px 5px}", "p{display:blocky}", "@font-face{src:url(missing.ttf)}", "@counter-style{system:cyclic}", "@page :unknown{margin:0}", "p{content:}", "}", "p{color:red", "@import 'missing.css';", "li{list-style-type:symbols()}", "p{color:red}}", "@media print{p{colr:red}}",
 }
 
+// a rule that gives every element, or the head elements, a display value
+var c01UniversalDisplay = regexp.MustCompile(`(?:\*|head|style)\s*\{[^}]*display\s*:`)
+
 // a marker image that the offline fetcher cannot load (anything but a data: URI)
 var c01BrokenMarkerImage = regexp.MustCompile(`list-style-image:url\((?:x|missing)\.png\)`)
 
@@ -168,19 +171,24 @@ func c01Check(ci interface{}) Verdict {
 	}
 	// the relation needs the added <style> element to generate no box: not the case when the author
 	// rules display head content (e.g. *{display:block})
-	displaysHead := false
-	for _, p := range r.Pages {
-		wr.WalkBoxes(p, func(b bo.Box) bool {
-			if el := b.Box().Element; el != nil {
-				switch el.Data {
-				case "style", "head", "title", "meta", "base", "link", "script":
-					displaysHead = true
+	headDisplayed := func(r *wr.Rendered) bool {
+		found := false
+		for _, p := range r.Pages {
+			wr.WalkBoxes(p, func(b bo.Box) bool {
+				if el := b.Box().Element; el != nil {
+					switch el.Data {
+					case "style", "head", "title", "meta", "base", "link", "script":
+						found = true
+					}
 				}
-			}
-			return !displaysHead
-		})
+				return !found
+			})
+		}
+		return found
 	}
-	if displaysHead {
+	if headDisplayed(r) || c01UniversalDisplay.MatchString(c.Doc.HTML) {
+		// (a rule such as *{display:table-header-group} gives the added style element a box that takes part in
+		// the table fix-ups even when nothing of it is left in the laid-out pages)
 		return Verdict{Excluded: "head-content-displayed", Labels: labels}
 	}
 	labels = append(labels, "metamorphic-pair")
@@ -188,6 +196,11 @@ func c01Check(ci interface{}) Verdict {
 	log2 := wr.CaptureLog(func() { r2, err = wr.Render(html2, opts) })
 	if err != nil {
 		return Verdict{Sig: "skip:rejects-document", Msg: fmt.Sprintf("the document is rejected once %q is added: %v", c.Inject, err), Labels: labels}
+	}
+	if headDisplayed(r2) {
+		// (e.g. *{display:table-header-group}: the first style element of the document gave no box of its own,
+		// the added one does)
+		return Verdict{Excluded: "head-content-displayed", Labels: labels}
 	}
 	if len(r2.Pages) != len(r.Pages) {
 		return Verdict{Sig: cleanSigC01("skip:page-count-changes:" + c.Inject), Msg: fmt.Sprintf("adding the invalid/unsupported construct %q changes the number of pages from %d to %d\n%s", c.Inject, len(r.Pages), len(r2.Pages), c.Doc.HTML), Labels: labels}
